@@ -38,7 +38,7 @@ impl Pools {
             authors: vec![author(0), author(1), author(2)],
             kinds: vec![1, 1, 7, 0, 3, 10002, 30023, 30024, 1059, 20001, 5],
             times: vec![100, 101, 102, 103, 200, 255, 256, 65535, 65536, (1 << 32) - 1, 1 << 32, (1 << 32) + 1],
-            dvals: vec!["".into(), "x".into(), "y".into(), "x\u{0}".into(), long_d(182, "a"), long_d(183, "ab"), long_d(183, "ac")],
+            dvals: vec!["".into(), "x".into(), "y".into(), "x:y".into(), "x\u{0}".into(), long_d(182, "a"), long_d(183, "ab"), long_d(183, "ac")],
             tvals: vec!["".into(), "a".into(), "b".into(), "ab".into(), "a\u{0}".into(), long_d(182, "p"), long_d(190, "q1"), long_d(190, "q2"), "nostr".into()],
             letters: vec!["t", "e", "p", "q", "T", "r"],
             content_lens: vec![0, 1, 7, 8, 9, 30, 100],
@@ -84,7 +84,12 @@ pub fn gen_event(rng: &mut Rng, p: &Pools, eng: &Eng, kind: Option<u16>) -> SemE
         match rng.below(12) {
             0 => tags.push(vec![]),
             1 => tags.push(vec![rng.pick(&p.letters).to_string()]),
-            2 => tags.push(vec!["client".into(), "pvmon".into()]),
+            2 => {
+                // names outside NIP-01's single letters: several letters, one byte that is not a letter, empty
+                let name = *rng.pick(&["client", "1", "-", "#", "_", "tt", "", "1", "-"]);
+                let v = if name == "client" { "pvmon".to_string() } else { rng.pick(&p.tvals).clone() };
+                tags.push(vec![name.to_string(), v]);
+            }
             3 => {
                 // the same value under two different letters, adjacent
                 let v = rng.pick(&p.tvals).clone();
